@@ -12,14 +12,15 @@ Definition quiet_env (rws : list Z) : env := env_of rws false.
 Lemma not_wf : forall l, wfb l = false -> ~ wf l.
 Proof. intros l H Hw. apply wfb_complete in Hw. congruence. Qed.
 
-(* s.add(o); s.commit(); s.delete(o); s.rollback()   - deleted_to_persistent although o never left persistent *)
+(* s.add(o); s.commit(); s.delete(o); s.rollback()   - used to fire deleted_to_persistent although o never left
+   persistent (repaired in /repo 93a87c1): now inside the guard, no event *)
 Definition h_delete_rollback : list (env * op) :=
   [(quiet_env [], Add 0); (quiet_env [], Commit); (quiet_env [1], Delete 0); (quiet_env [1], Rollback)].
 Lemma delete_rollback_log : slog (run h_delete_rollback (init true [1])) =
-  [Chg 0 Transient Pending; Ev 0 T2P Pending; Chg 0 Pending Persistent; Ev 0 P2S Persistent; Ev 0 D2S Persistent].
+  [Chg 0 Transient Pending; Ev 0 T2P Pending; Chg 0 Pending Persistent; Ev 0 P2S Persistent].
 Proof. vm_compute. reflexivity. Qed.
-Lemma delete_rollback_not_wf : ~ wf (slog (run h_delete_rollback (init true [1]))).
-Proof. apply not_wf. vm_compute. reflexivity. Qed.
+Lemma delete_rollback_guarded : guarded h_delete_rollback (init true [1]) = true.
+Proof. vm_compute. reflexivity. Qed.
 
 (* s.add(o); s.flush(); s.expunge(o); s.rollback()   - detached -> transient announced as persistent_to_transient *)
 Definition h_expunge_rollback : list (env * op) :=
